@@ -25,6 +25,8 @@ FLAVOURS = {
     "O3chk": ["-C", "codegen-units=1", "-C", "overflow-checks=on", "-C", "debug-assertions=on"],
     "O0": ["-C", "codegen-units=1", "-C", "opt-level=0", "-C", "panic=abort", "-C", "debuginfo=0",
            "-C", "overflow-checks=off", "-C", "debug-assertions=off"],
+    "O0chk": ["-C", "codegen-units=1", "-C", "opt-level=0", "-C", "panic=abort", "-C", "debuginfo=0",
+              "-C", "overflow-checks=on", "-C", "debug-assertions=on"],
 }
 
 _work = None
@@ -70,7 +72,7 @@ def ir(config, flavour, crate="curve25519-dalek", features=None, hooks=True, no_
     cmd = ["cargo"]
     if config == "avx512": cmd.append("+nightly")
     cmd += ["rustc", "--offline", "-p", crate, "--lib", "--target-dir", tdir]
-    if flavour != "O0": cmd.append("--release")
+    if not flavour.startswith("O0"): cmd.append("--release")
     if no_default: cmd.append("--no-default-features")
     if features: cmd += ["--features", ",".join(features)]
     if with_deps: cmd = [c for c in cmd if c != "rustc"]; cmd.insert(1 if config != "avx512" else 2, "build")
@@ -79,7 +81,7 @@ def ir(config, flavour, crate="curve25519-dalek", features=None, hooks=True, no_
     r = subprocess.run(cmd, cwd=REPO, env=env, capture_output=True, text=True)
     if r.returncode != 0:
         raise BuildError("IR build failed (%s %s %s):\n%s" % (config, flavour, crate, r.stderr[-4000:]))
-    prof = "release" if flavour != "O0" else "debug"
+    prof = "release" if not flavour.startswith("O0") else "debug"
     cands = glob.glob(os.path.join(tdir, prof, "deps", crate.replace("-", "_") + "-*.ll"))
     if not cands: raise BuildError("no .ll produced for " + repr(key))
     path = max(cands, key=os.path.getmtime)
